@@ -115,6 +115,32 @@ func (v *Val) Key() string {
 	return v.key
 }
 
+// wrapInt reduces an integer constant to the range of the sized integer type t (two's complement), as the machine
+// operation on values of that type does; other constants and types are left alone.
+func wrapInt(c constant.Value, t types.Type) constant.Value {
+	if c == nil || c.Kind() != constant.Int || t == nil {
+		return c
+	}
+	b, ok := t.Underlying().(*types.Basic)
+	if !ok || b.Info()&types.IsInteger == 0 || b.Info()&types.IsUntyped != 0 {
+		return c
+	}
+	bits, uns := intBits(b)
+	if bits <= 0 {
+		return c
+	}
+	mod := constant.Shift(constant.MakeInt64(1), token.SHL, uint(bits))
+	mask := constant.BinaryOp(mod, token.SUB, constant.MakeInt64(1))
+	w := constant.BinaryOp(c, token.AND, mask) // (AND of a negative big integer is two's complement in go/constant)
+	if !uns {
+		half := constant.Shift(constant.MakeInt64(1), token.SHL, uint(bits-1))
+		if constant.Compare(w, token.GEQ, half) {
+			w = constant.BinaryOp(w, token.SUB, mod)
+		}
+	}
+	return w
+}
+
 func typeStr(t types.Type) string {
 	if t == nil {
 		return "?"
@@ -309,7 +335,17 @@ func mkBinop(op token.Token, x, y *Val, t types.Type) *Val {
 			}
 		case token.ADD, token.SUB, token.MUL:
 			if isNum(x.C) && isNum(y.C) {
-				return mkConst(constant.BinaryOp(x.C, op, y.C), t)
+				return mkConst(wrapInt(constant.BinaryOp(x.C, op, y.C), t), t)
+			}
+		case token.AND, token.OR, token.XOR, token.AND_NOT:
+			if x.C.Kind() == constant.Int && y.C.Kind() == constant.Int && t != nil && isIntegerType(t) {
+				return mkConst(wrapInt(constant.BinaryOp(x.C, op, y.C), t), t)
+			}
+		case token.SHL, token.SHR:
+			if x.C.Kind() == constant.Int && y.C.Kind() == constant.Int && t != nil && isIntegerType(t) {
+				if n, ok := constant.Uint64Val(y.C); ok && n < 128 {
+					return mkConst(wrapInt(constant.Shift(x.C, op, uint(n)), t), t)
+				}
 			}
 		}
 	}
@@ -554,6 +590,10 @@ func mkLen(x *Val) *Val {
 	case "conv":
 		// string <-> []byte conversions preserve byte length
 		if isStringOrBytes(x.Type) && x.Args[0].Type != nil && isStringOrBytes(x.Args[0].Type) {
+			return mkLen(x.Args[0])
+		}
+		// a change of type (named slice type, a generic body's []K for its wrapper's []K) leaves the value as it is
+		if x.Name == "changetype" && len(x.Args) == 1 {
 			return mkLen(x.Args[0])
 		}
 		if _, isTP := x.Args[0].Type.(*types.TypeParam); isTP && isStringOrBytes(x.Type) {
